@@ -931,3 +931,47 @@ func zzC02JSONBatch() {
 	vAssert(g1 == jsonrpc.Message(r1) && g2 == jsonrpc.Message(r2), "C19.jsonbatch.each-element-is-the-response-it-carries")
 	vReach("end")
 }
+
+// zzC02ErrorAnswer: the answer to a call that ends in a JSON-RPC error, on the exchange of that call (SSE mode), for
+// every error code, protocol era and for handlers that did or did not send a related notification first. Whatever the
+// code, the answer reaches the client in a form it can read: as the whole body with the mandated status (2026-07-28
+// protocol-level errors) only while nothing has been written to that response; once an event has gone out — status
+// and content type are committed — as one more event. (D14: the raw body used to land unframed in the event stream.)
+func zzC02ErrorAnswer() {
+	env := &zzSrvEnv{streamNames: []string{"st1", "st2"}}
+	zzSrv8 = env
+	stateless := vBool("stateless")
+	c := zzConnect(nil, stateless, false)
+	wA := zzNewExch("A")
+	idA := jsonrpc2.Int64ID(1)
+	s := &stream{id: "stA", requests: map[jsonrpc.ID]struct{}{idA: {}}, lastIdx: -1, w: wA, done: make(chan struct{})}
+	c.streams["stA"] = s
+	c.requestStreams[idA] = "stA"
+	version := []string{protocolVersion20250618, protocolVersion20251125, protocolVersion20260728}[vChoice("version", 3)]
+	ctx := context.WithValue(context.Background(), idContextKey{}, idA)
+	ctx = context.WithValue(ctx, protocolVersionContextKey{}, version)
+	notified := vBool("handlerSentANotificationFirst")
+	if notified {
+		err := c.Write(ctx, &jsonrpc.Request{Method: "notifications/progress", Params: vJSON("p")})
+		vAssert(err == nil && len(wA.events) == 1 && len(wA.raw) == 0, "C10.related-message-on-that-requests-stream")
+	}
+	code := []int64{jsonrpc.CodeMethodNotFound, jsonrpc.CodeInvalidParams, CodeUnsupportedProtocolVersion, CodeMissingRequiredClientCapabilities, jsonrpc.CodeInternalError, -32000}[vChoice("code", 6)]
+	werr := c.Write(ctx, &jsonrpc.Response{ID: idA, Error: &jsonrpc.Error{Code: code, Message: "no"}})
+	vAssert(werr == nil, "C02.error-answer-written")
+	before := 0
+	if notified {
+		before = 1
+	}
+	if len(wA.raw) > 0 {
+		// a raw body: only as the first and only thing on this response, with its status
+		vAssert(!notified && len(wA.events) == 0 && len(wA.raw) == 1, "C02.error-answer-readable-by-the-client")
+		vAssert(version >= protocolVersion20260728 && wA.code >= 400, "C02.error-answer-readable-by-the-client")
+		vReach("as-body")
+	} else {
+		vAssert(len(wA.events) == before+1, "C02.error-answer-readable-by-the-client")
+		vReach("as-event")
+	}
+	_, still := c.requestStreams[idA]
+	vAssert(!still, "C10.answered-request-unrouted")
+	vReach("end")
+}
